@@ -104,6 +104,30 @@ prop('C15',
          'VarSet union/minus/intersect (BitSet iterator adapters)',
      ])
 
+prop('C14',
+     units=['order'],
+     assumptions=[A_VERUS, A_EXTRACT],
+     replay='order',
+     explanation='first sentence of the property, for the orders VarOrder itself builds: VarOrder::new(order) for ANY permutation `order` yields mutually inverse position/label maps (wf) with '
+                 'get(order[i]) == i; new_last (run-time extension) preserves wf, keeps every old position and appends the new label; get / var_at_level / lt / lte / first / first_essential are proved against the maps',
+     not_covered=[
+         'VarOrder::linear_order ((0..n).map(..).collect(): iterator chain; it only calls VarOrder::new, which is proved)',
+         'min-fill (petgraph) and FORCE (f64, sort_by, partial_cmp) order heuristics',
+         'dtree construction and cutsets (VarSet unions over BitSet iterators, partition)', 'VTree::from_dtree, VTreeManager (in-order indices, lca via segment tree, prime test, variable count)',
+     ])
+
+prop('C05',
+     units=['bottomup', 'builder', 'ite', 'ptr', 'order', 'cache', 'lru', 'robdd'],
+     assumptions=[A_VERUS, A_EXTRACT, A_PTREQ, A_CELL, A_TERM, A_CAP, A_HASH, A_CLONE, A_F64],
+     replay='compile',
+     explanation='compile_logical_expr(e) and compile_plan(p) (trait default methods, generic in the pointer type) denote expr_sem(e) / plan_sem(p), the structural meaning of the enum; '
+                 'collapse_clauses denotes the conjunction of its slice and is None exactly for the empty slice; for the BDD builder the operations they call are the ones proved under C01 (same units), for any variable order',
+     not_covered=[
+         'compile_cnf: clause-sorting prologue (sort_by with closures over max_by), the per-clause loop and the empty-clause test use iterator adapters Verus rejects; its last step collapse_clauses is proved',
+         'compile_cnf_with_assignments (BinaryHeap, count_nodes on scratch)', 'BottomUpPlan::from_dtree (iter().skip(1).fold)',
+         'everything SDD (C03): compile_* under the SDD builder and any vtree',
+     ])
+
 
 def proved_includes(root):
     """set of inc/*.rs files that some unit template includes non-assumed"""
